@@ -3,12 +3,12 @@
  *    functions run out of memory in propositional reduction on this code);
  *  - dbus_malloc / dbus_malloc0 / dbus_realloc: every call may FAIL (nondeterministic, = --malloc-may-fail --malloc-fail-null
  *    restricted to the library's allocations); a successful dbus_realloc grows the block IN PLACE (one of the behaviours ISO C
- *    allows): every block is allocated with VERIF_SLACK spare bytes, and a request beyond that is outside the bound of the unit
+ *    allows): every block has room for VERIF_N + VERIF_SLACK bytes, and a request beyond that is outside the bound of the unit
  *    (assumed away, stated in `bounds`);
  *  - fixup_alignment: align_offset stays 0 (platform fact of DESIGN 3.5: the allocator returns 8-aligned blocks);
  *  - DBusList as used for the array-length fixups: a pool of 4 links (append may fail). */
 #ifndef VERIF_SLACK
-#define VERIF_SLACK 64
+#define VERIF_SLACK 24
 #endif
 #define VERIF_MEMMAX (VERIF_N + VERIF_SLACK)
 static int g_allocs, g_failed_allocs;
@@ -24,14 +24,14 @@ void *verif_mem_memset (void *dst, int c, size_t n)
   for (k = 0; k < VERIF_MEMMAX; k++) { if (k >= n) break; ((unsigned char *) dst)[k] = (unsigned char) c; } return dst; }
 void *verif_mem_malloc (size_t bytes)
 { void *p; if (bytes == 0) return NULL; g_allocs++; if (nondet_bool ()) { g_failed_allocs++; return NULL; }
-  __CPROVER_assume (bytes <= VERIF_MEMMAX); p = malloc (VERIF_MEMMAX + VERIF_SLACK); __CPROVER_assume (p != NULL); return p; }
+  __CPROVER_assume (bytes <= VERIF_MEMMAX); p = malloc (VERIF_MEMMAX); __CPROVER_assume (p != NULL); return p; }
 void *verif_mem_malloc0 (size_t bytes)
 { unsigned char *p = verif_mem_malloc (bytes); size_t k; if (p) for (k = 0; k < VERIF_MEMMAX; k++) { if (k >= bytes) break; p[k] = 0; } return p; }
 void *verif_mem_realloc (void *memory, size_t bytes)
 { if (memory == NULL) return verif_mem_malloc (bytes);
   if (bytes == 0) { free (memory); return NULL; }
   g_allocs++; if (nondet_bool ()) { g_failed_allocs++; return NULL; }
-  __CPROVER_assume (bytes <= VERIF_MEMMAX + VERIF_SLACK); return memory; }
+  __CPROVER_assume (bytes <= __CPROVER_OBJECT_SIZE (memory)); return memory; }
 void verif_mem_free (void *memory) { if (memory) free (memory); }
 void verif_mem_fixup_alignment (DBusRealString *real) { __CPROVER_assert (real->align_offset == 0, "blocks are 8-aligned: no alignment shift"); }
 /* DBusList for fixups */
